@@ -45,7 +45,7 @@ fn emitted(texts: &[(String, String)]) -> Result<doc::Doc, String> {
             let v: serde_yaml::Value = serde_yaml::from_str(&y).map_err(|e| e.to_string())?;
             Ok(doc::extract(&v))
         }
-        Run::Rejected(e) => Err(format!("rejected: {}", e.class())),
+        Run::Rejected(e) => Err(format!("rejected: {} [{}]", e.class(), e.message())),
         Run::EvalError(e, _) => Err(format!("evaluation error: {e}")),
         Run::LoadPanic(p) | Run::BackendPanic(p) => Err(format!("panic: {}", p.message.chars().take(80).collect::<String>())),
     }
@@ -76,7 +76,7 @@ fn check_state(
     let last = trail.last().copied().unwrap_or("seed");
     match emitted(texts) {
         Err(why) => {
-            let mut class: String = why.chars().take_while(|c| *c != '(' && *c != '\n').take(40).collect();
+            let mut class: String = why.chars().take_while(|c| *c != '(' && *c != '\n').take(90).collect();
             if last.starts_with("move declarations") {
                 // Is the extracted module rejected on its own, or only its importer?
                 let alone: Vec<(String, String)> = texts.iter().filter(|(n, _)| n.starts_with("zx") || n.starts_with("zy")).cloned().collect();
@@ -190,7 +190,7 @@ impl Engine for C05 {
     fn phases(&self, tier: Tier) -> Vec<Phase> {
         match tier {
             Tier::Quick => vec![
-                Phase::new("depth 1 from every 2nd fragment seed", json!({"step":2,"depth":1})),
+                Phase::new("depth 1 from every fragment seed", json!({"step":1,"depth":1})),
                 Phase::new("depth 2 from every 30th fragment seed", json!({"step":30,"depth":2})),
             ],
             Tier::Thorough => vec![
